@@ -29,11 +29,29 @@ CHECKS.update({
    ref='6/C17'),
 })
 
+CHECKS.update({
+ 'C01': dict(level='other', engine='S-ring + K-toy',
+   technique='symbolic execution of rustc MIR over an abstract commutative ring with z3 deciding polynomial identities per case of the group law; Kani/CBMC bounded model checking of the same macro over toy prime fields',
+   text='G1 and G2 instantiations of curve_impl! (double, add_assign, add_assign_mixed, negate, ==, conversions, default sub_assign[_mixed]) are executed from MIR over an abstract ring; per case (identity operands, equal points, inverse points, generic) z3 shows the outputs equal the chord/tangent law written with explicit denominators and that the code\'s case split is the specification\'s. The same macro body instantiated over F13 (and F31 in thorough) is model-checked by Kani against an affine reference for all points in all Jacobian representatives, incl. batch_normalization on slices of length 0..3.',
+   note='Assumes Fq/Fq2 are fields (C08/C09). Field-specific implications (same affine point <=> cross products equal) are decided on real (toy) fields by Kani, identities hold over every ring. Toy primes <= 31, batch vectors <= 3 are the stated bounds.',
+   ref='6/C01'),
+ 'C02': dict(level='other', engine='S-exp/bv',
+   technique='symbolic execution of rustc MIR in the exponent domain with bit-vector scalars, z3 QF_BV; inductive steps at loop-head cut points for wNAF',
+   text='mul_assign, affine mul (mul_bits), precomp_3+mul_precomp_3, precomp_256+mul_precomp_256 for G1 and G2 are executed from MIR with all 256 scalar bits symbolic; z3 shows result exponent = k. wnaf_form (real FrRepr limb code) by one inductive step of the loop body for every window 2..=22 (exact halving, digit shape, bound, ranking, no panic), wnaf_exp and wnaf_table by inductive steps with a symbolic table, recommendations in 2..=22 for all inputs.',
+   note='Group operations assumed to act as an abelian group (C01). wnaf_table executed completely for windows <= 8, by induction step for all; Wnaf context: buffers are truncated at entry of wnaf_table/wnaf_form (checked from junk state).',
+   ref='6/C02'),
+ 'C10': dict(level='other', engine='S-exp/bv',
+   technique='symbolic execution of rustc MIR with one inductive step per Pippenger window position (cut point at the outer loop head), symbolic bucket indices, unwinding obligations; z3 QF_BV',
+   text='sum_of_products_pippinger: from an arbitrary accumulator and identity buckets one execution of the real loop body is shown to produce res\' = 2^d res + sum digit_i e_i, buckets identity again, next position per schedule, for all scalars < 2^255; window arithmetic facts close the induction. Digit extraction/index safety/max_bucket for windows up to 20 from recorded bucket updates. find_pippinger_window in 1..=16 and monotone for every usize; sum_of_products delegates with min length; precomp_256 variant for all 256-bit scalars.',
+   note='Quick: windows 1..4 (n<=3) at one position per control-flow class; thorough: windows 1..8 at every position, digits for every window 1..=20. Bucket reduction for windows 9..20 and n>3 outside the claim. Group law assumed (C01).',
+   ref='6/C10'),
+})
+
 NOT_APPLICABLE = {
  'C03': 'bilinearity/non-degeneracy is a theorem about Miller functions of degree ~2^63 in the inputs; no bounded SMT/SAT query expresses it and the pairing code cannot be re-instantiated over a toy curve (DESIGN 6/C03)',
  'C20': 'quantifies over thread schedules; Kani/CBMC do not model std::thread and the mechanism is a fact about declarations, not a solver query (DESIGN 6/C20)',
 }
-PENDING = ['C01','C02','C04','C05','C06','C07','C08','C10','C11','C13','C14','C15','C16','C17','C18','C19']
+PENDING = ['C04','C05','C06','C07','C08','C11','C13','C15','C16','C18','C19']
 
 def main():
     checks = []
@@ -65,6 +83,7 @@ def main():
             'add_only': True,
         },
         'engines': [
+            {'name': 'kani', 'path': '/verif/kani', 'serves_properties': ['C01'], 'kind_free_text': 'Kani 0.68 / CBMC 6.11 harness crate with a path dependency on a scratch copy of /repo (feature verif), unwinding assertions on, cover! vacuity witnesses'},
             {'name': 'mirsym', 'path': '/verif/mirsym', 'serves_properties': sorted(CHECKS), 'kind_free_text': 'symbolic executor for rustc MIR (regenerated from /repo on every run) producing SMT obligations for z3; ring / exponent / bit-vector / EUF domains'},
         ],
         'checks': checks,
